@@ -13,6 +13,10 @@ def run_check(prop, tier, repo, seed, evidence_dir=None, quiet=False):
     try:
         ctx = report.Ctx(prop, tier, repo, seed=seed, evidence_dir=evidence_dir, quiet=quiet)
         mod = importlib.import_module("agstatic.rules.%s" % prop.lower())
+        import time as _t
+        from . import absint as _absint
+        _absint.DEADLINE = _t.time() + (90 if tier == "quick" else 1500)
+        _absint.TIER_NAME = tier
         mod.run(ctx)
         if not getattr(mod, "NO_HISTORY_PASS", False):
             # shared pass: persistent state (module/class-level stores, caching decorators) in the call closure of the analysed functions
